@@ -13,6 +13,7 @@
 #include "obs.hpp"
 #include "ops.hpp"
 #include <algorithm>
+#include <cstring>
 #include <map>
 #include <set>
 
@@ -84,6 +85,7 @@ static std::vector<Link> link_menu() {
     add("x2.link(x3)", [](File &f) { X(f, "x1/x2").link(X(f, "x3")); });
     add("a2.dfdim(f1)", [](File &f) { B(f).getDataArray("a2").appendDataFrameDimension(B(f).getDataFrame("f1"), 0u); });
     add("a3.aliasdim", [](File &f) { B(f).getDataArray("a3").appendAliasRangeDimension(); });
+    add("a3.aliasdim+setdim", [](File &f) { DataArray a = B(f).getDataArray("a3"); if (a.dimensionCount() == 0) a.appendAliasRangeDimension(); a.appendSetDimension(); });
     return m;
 }
 
@@ -149,19 +151,34 @@ static bool do_delete(File &f, const Victim &v, int mode, const std::string &id)
     throw std::runtime_error("unknown victim kind");
 }
 
+// owner handles obtained BEFORE the deletion and already asked about the victim's id (a per-handle memo would be filled now)
+struct Owners { Block b; Source so; Section xo; bool use = false; };
+static Owners owners_before(File &f, const Victim &v, const std::string &id) {
+    Owners o; o.use = true;
+    vf::guarded([&] {
+        if (f.hasBlock("b1")) { o.b = B(f); o.b.hasDataArray(id); o.b.hasDataFrame(id); o.b.hasTag(id); o.b.hasMultiTag(id); o.b.hasGroup(id); o.b.hasSource(id); }
+        if (v.kind == "Source" && v.owner != "b1") { o.so = S(f, v.owner); o.so.hasSource(id); o.so.getSource(id); }
+        if ((v.kind == "Section" || v.kind == "Property") && !v.owner.empty()) { o.xo = X(f, v.owner); o.xo.hasSection(id); o.xo.hasProperty(id); }
+        f.hasBlock(id); f.hasSection(id);
+    });
+    return o;
+}
+
 // lookups by the old name / id through the owner must find nothing
-static std::string lookups_after(File &f, const Victim &v, const std::string &id) {
+static std::string lookups_after(File &f, const Victim &v, const std::string &id, const Owners *own = nullptr, bool by_name = true) {
     std::string r;
-    auto chk = [&](const char *what, const std::function<bool()> &found) { std::string e = vf::guarded([&] { if (found()) r += std::string(what) + " "; }); (void)e; };
+    auto chk = [&](const char *what, const std::function<bool()> &found) {
+        if (!by_name && strstr(what, "(name)")) return;
+        std::string e = vf::guarded([&] { if (found()) r += std::string(what) + " "; }); (void)e; };
     const std::string &n = v.name;
     if (v.kind == "Block") { chk("hasBlock(name)", [&] { return f.hasBlock(n); }); chk("hasBlock(id)", [&] { return f.hasBlock(id); }); chk("getBlock(name)", [&] { return bool(f.getBlock(n)); }); chk("getBlock(id)", [&] { return bool(f.getBlock(id)); }); return r; }
     if (v.kind == "Section" && v.owner.empty()) { chk("hasSection(name)", [&] { return f.hasSection(n); }); chk("hasSection(id)", [&] { return f.hasSection(id); }); chk("getSection(id)", [&] { return bool(f.getSection(id)); });
         chk("findSections(id)", [&] { return !f.findSections(util::IdFilter<Section>(id)).empty(); }); return r; }
-    if (v.kind == "Section") { Section o = X(f, v.owner); chk("hasSection(name)", [&] { return o.hasSection(n); }); chk("hasSection(id)", [&] { return o.hasSection(id); }); chk("getSection(name)", [&] { return bool(o.getSection(n)); });
+    if (v.kind == "Section") { Section o = own && own->xo ? own->xo : X(f, v.owner); chk("hasSection(name)", [&] { return o.hasSection(n); }); chk("hasSection(id)", [&] { return o.hasSection(id); }); chk("getSection(name)", [&] { return bool(o.getSection(n)); });
         chk("findSections(id)", [&] { return !f.findSections(util::IdFilter<Section>(id)).empty(); }); return r; }
-    if (v.kind == "Property") { Section o = X(f, v.owner); chk("hasProperty(name)", [&] { return o.hasProperty(n); }); chk("hasProperty(id)", [&] { return o.hasProperty(id); }); chk("getProperty(name)", [&] { return bool(o.getProperty(n)); }); return r; }
+    if (v.kind == "Property") { Section o = own && own->xo ? own->xo : X(f, v.owner); chk("hasProperty(name)", [&] { return o.hasProperty(n); }); chk("hasProperty(id)", [&] { return o.hasProperty(id); }); chk("getProperty(name)", [&] { return bool(o.getProperty(n)); }); return r; }
     if (!f.hasBlock("b1")) return r;
-    Block b = B(f);
+    Block b = own && own->b ? own->b : B(f);
     if (v.kind == "DataArray") { chk("hasDataArray(name)", [&] { return b.hasDataArray(n); }); chk("hasDataArray(id)", [&] { return b.hasDataArray(id); }); chk("getDataArray(name)", [&] { return bool(b.getDataArray(n)); }); chk("getDataArray(id)", [&] { return bool(b.getDataArray(id)); }); }
     if (v.kind == "DataFrame") { chk("hasDataFrame(name)", [&] { return b.hasDataFrame(n); }); chk("hasDataFrame(id)", [&] { return b.hasDataFrame(id); }); chk("getDataFrame(id)", [&] { return bool(b.getDataFrame(id)); }); }
     if (v.kind == "Tag") { chk("hasTag(name)", [&] { return b.hasTag(n); }); chk("hasTag(id)", [&] { return b.hasTag(id); }); chk("getTag(id)", [&] { return bool(b.getTag(id)); }); }
@@ -170,9 +187,54 @@ static std::string lookups_after(File &f, const Victim &v, const std::string &id
     if (v.kind == "Source") {
         chk("findSources(id)", [&] { return !b.findSources(util::IdFilter<Source>(id)).empty(); });
         if (v.owner == "b1") { chk("hasSource(name)", [&] { return b.hasSource(n); }); chk("hasSource(id)", [&] { return b.hasSource(id); }); }
-        else { Source o = S(f, v.owner); chk("hasSource(name)", [&] { return o.hasSource(n); }); chk("hasSource(id)", [&] { return o.hasSource(id); }); chk("getSource(name)", [&] { return bool(o.getSource(n)); }); }
+        else { Source o = own && own->so ? own->so : S(f, v.owner); chk("hasSource(name)", [&] { return o.hasSource(n); }); chk("hasSource(id)", [&] { return o.hasSource(id); }); chk("getSource(name)", [&] { return bool(o.getSource(n)); }); }
     }
     return r;
+}
+
+// re-create an entity of the victim's kind under the victim's name through fresh owner handles; returns the new id
+static std::string recreate(File &f, const Victim &v) {
+    const std::string &n = v.name;
+    if (v.kind == "Block") return f.createBlock(n, "again").id();
+    if (v.kind == "Section" && v.owner.empty()) return f.createSection(n, "again").id();
+    if (v.kind == "Section") return X(f, v.owner).createSection(n, "again").id();
+    if (v.kind == "Property") return X(f, v.owner).createProperty(n, Variant(2.5)).id();
+    if (v.kind == "DataArray") return B(f).createDataArray(n, "again", DataType::Double, NDSize({2})).id();
+    if (v.kind == "DataFrame") return B(f).createDataFrame(n, "again", std::vector<Column>{{"k", "", DataType::Int64}}).id();
+    if (v.kind == "Tag") return B(f).createTag(n, "again", {0.5}).id();
+    if (v.kind == "MultiTag") return B(f).createMultiTag(n, "again", B(f).getDataArray("a2")).id();
+    if (v.kind == "Group") return B(f).createGroup(n, "again").id();
+    if (v.kind == "Source") return (v.owner == "b1" ? B(f).createSource(n, "again") : S(f, v.owner).createSource(n, "again")).id();
+    throw std::runtime_error("unknown victim kind");
+}
+// does the owner (fresh handle) still have an entity of that name, and which id does it show
+static std::string id_by_name(File &f, const Victim &v) {
+    const std::string &n = v.name; std::string id;
+    vf::guarded([&] {
+        if (v.kind == "Block") id = f.getBlock(n).id();
+        else if (v.kind == "Section") id = (v.owner.empty() ? f.getSection(n) : X(f, v.owner).getSection(n)).id();
+        else if (v.kind == "Property") id = X(f, v.owner).getProperty(n).id();
+        else if (v.kind == "DataArray") id = B(f).getDataArray(n).id();
+        else if (v.kind == "DataFrame") id = B(f).getDataFrame(n).id();
+        else if (v.kind == "Tag") id = B(f).getTag(n).id();
+        else if (v.kind == "MultiTag") id = B(f).getMultiTag(n).id();
+        else if (v.kind == "Group") id = B(f).getGroup(n).id();
+        else if (v.kind == "Source") id = (v.owner == "b1" ? B(f).getSource(n) : S(f, v.owner).getSource(n)).id();
+    });
+    return id;
+}
+// delete by (old) id through the owner handles kept since before the first deletion
+static bool delete_by_id_kept(File &f, const Victim &v, const std::string &id, Owners o) {
+    if (v.kind == "Block") return f.deleteBlock(id);
+    if (v.kind == "Section") return v.owner.empty() ? f.deleteSection(id) : o.xo.deleteSection(id);
+    if (v.kind == "Property") return o.xo.deleteProperty(id);
+    if (v.kind == "DataArray") return o.b.deleteDataArray(id);
+    if (v.kind == "DataFrame") return o.b.deleteDataFrame(id);
+    if (v.kind == "Tag") return o.b.deleteTag(id);
+    if (v.kind == "MultiTag") return o.b.deleteMultiTag(id);
+    if (v.kind == "Group") return o.b.deleteGroup(id);
+    if (v.kind == "Source") return v.owner == "b1" ? o.b.deleteSource(id) : o.so.deleteSource(id);
+    throw std::runtime_error("unknown victim kind");
 }
 
 // "does not expose": a holder whose link target is gone may answer none or throw; both are normalised to the empty list.
@@ -288,6 +350,7 @@ int main(int argc, char **argv) {
                 std::string ctx = sdesc + " variant " + std::to_string(var) + "; delete " + v.kind + " " + v.name + " " + MODES[mode];
                 std::string sigbase = "C04|delete " + v.kind + " " + MODES[mode];
                 bool ret = false; std::string what;
+                Owners own = owners_before(f, v, vid);
                 vf::set_clock(1500000300);
                 std::string exc = vf::guarded([&] { ret = do_delete(f, v, mode, vid); }, &what);
                 vf::count("deletions");
@@ -310,6 +373,8 @@ int main(int argc, char **argv) {
                 // (2) lookups by old name / id
                 std::string found = lookups_after(f, v, vid);
                 if (!found.empty()) vf::violation(sigbase + "|deleted entity still found|" + found, ctx);
+                found = lookups_after(f, v, vid, &own);
+                if (!found.empty()) vf::violation(sigbase + "|deleted entity still found through an owner handle obtained before the deletion|" + found, ctx);
                 // (3) old handles to the victim and its subtree
                 std::string valid;
                 // the statement constrains handles to the deleted entity itself and (sources, sections) to the nodes of its
@@ -324,6 +389,36 @@ int main(int argc, char **argv) {
                 if (!valid.empty()) vf::violation(sigbase + "|handle still reports valid|" + valid + "|incoming: " + linkkinds(), ctx);
                 vf::distinct("outcomes", v.kind + "|" + MODES[mode] + "|" + linkkinds() + "|" + (te == ta ? "ok" : "differs"));
                 vf::distinct("scenarios", ctx);
+                // (3') an entity created afterwards under the victim's name is a new entity: the old id still resolves to nothing
+                // (through fresh owner handles and through the ones kept since before the deletion), the old handles stay invalid,
+                // and a deletion by the old id removes nothing.  Done in the 0- and 1-link graphs and the all-links graph.
+                if ((sub.size() <= 1 || sub.size() > 6) && te == ta && !(v.kind == "DataArray" && v.name == "a2") ) {
+                    std::string nid, w2;
+                    std::string e2 = vf::guarded([&] { nid = recreate(f, v); }, &w2);
+                    vf::count("recreations");
+                    if (!e2.empty()) vf::violation(sigbase + "|re-creating an entity under the name of the deleted one|throws " + e2, ctx + " " + w2);
+                    else {
+                        if (nid == vid) vf::violation(sigbase + "|entity re-created under the victim's name|carries the id of the deleted entity", ctx);
+                        std::string f1 = lookups_after(f, v, vid, nullptr, false), f2 = lookups_after(f, v, vid, &own, false);
+                        if (!f1.empty() || !f2.empty())
+                            vf::violation(sigbase + "|after re-creating an entity under the victim's name the OLD id resolves again|" + (f1.empty() ? "" : "fresh owner handle: " + f1) + (f2.empty() ? "" : "owner handle kept since before the deletion: " + f2), ctx);
+                        std::string valid2;
+                        still_valid(pool.blocks, self, "Block", valid2); still_valid(pool.arrays, self, "DataArray", valid2); still_valid(pool.frames, self, "DataFrame", valid2);
+                        still_valid(pool.tags, self, "Tag", valid2); still_valid(pool.mtags, self, "MultiTag", valid2); still_valid(pool.groups, self, "Group", valid2);
+                        still_valid(pool.properties, self, "Property", valid2); still_valid(pool.sources, self, "Source", valid2); still_valid(pool.sections, self, "Section", valid2);
+                        if (!valid2.empty()) vf::violation(sigbase + "|after re-creating an entity under the victim's name a handle of the deleted entity reports valid|" + valid2, ctx);
+                        bool r2 = false;
+                        vf::guarded([&] { r2 = delete_by_id_kept(f, v, vid, own); });
+                        std::string now = id_by_name(f, v);
+                        if (r2 || now != nid)
+                            vf::violation(sigbase + "|deletion by the OLD id after re-creating an entity under the victim's name|" + (now != nid ? "the new entity is gone" : "answers true"), ctx);
+                        // put the state back to what the model expects: remove the new entity again
+                        bool r3 = false;
+                        std::string e3 = vf::guarded([&] { if (!id_by_name(f, v).empty()) r3 = do_delete(f, v, 0, nid); else r3 = true; });
+                        obs::Node again = obs::observe(f, oo); normalise(again);
+                        if (!e3.empty() || !r3 || obs::render(again) != te) vf::violation(sigbase + "|deleting the re-created entity|state differs from the one before its creation", ctx, obs::diff(te, obs::render(again), 12));
+                    }
+                }
                 // (4) after reopen
                 pool.clear();
                 vf::set_clock(1500000400);
